@@ -58,12 +58,13 @@ HARD_CAP_S = 240.0
 CHUNK = 4
 BUNDLED_FAMILIES = ["linear", "quadratic", "cubic", "anns", "min_anns",
                     "peaks", "partially_linear", "predefined"]
-BUNDLED_WATCHDOG_S = 150.0
+BUNDLED_WATCHDOG_S = 45.0
 _DIMS: dict = {}
 
 
-class _Undecided(Exception):
-    pass
+class _Undecided(BaseException):
+    """Watchdog signal; a BaseException so that no 'except Exception' around
+    repo calls can mistake it for a failure of the code under test."""
 
 
 def _bundled_controller(system, fam: str, k: int):
